@@ -495,6 +495,24 @@ func init() {
 				},
 				Check: c16CheckLong, Batch: 4,
 			},
+			&engine.Enum[c16LongCase]{
+				Name: "sync-buffer-edges",
+				Rule: "every reader buffer size B in 16..1300 (thorough ..4200) x a lead of B-d bytes for d in 0..6 (so that the first plausible header starts in the last bytes of the first buffer fill, at its end, or right behind it) x 2 lead kinds (0xFF only, then two null packets; 0xFF with a stray sync byte right before the header, then 60 more packets: more stream than any buffer holds), whole-stream reads and reads of 1000 bytes: oracle of sync-long-leads",
+				Gen: func(r *engine.Run, emit func(c16LongCase)) {
+					maxB := 1300
+					if r.Thorough() {
+						maxB = 4200
+					}
+					for b := 16; b <= maxB; b++ {
+						for d := 0; d <= 6 && d < b; d++ {
+							for _, k := range []int{0, 4} {
+								emit(c16LongCase{b - d, k, b, 1000 * (b % 2)})
+							}
+						}
+					}
+				},
+				Check: c16CheckLong, Batch: 16,
+			},
 			&engine.Tree{
 				Name: "sync-scripted-tree",
 				Rule: "10 hand-picked streams (the section-9 probe, runs of false syncs, reserved afc/PID headers straddling 16/17/64-byte buffer ends, header cut by end of stream, empty) x bufio size x scripted reader: at every Read the chooser picks an optional empty answer (0,nil) first (at most two in a row), the amount (all, 1, half, to the next buffer-size boundary, +1, -1) and whether EOF comes with the last data; deviations <= 5 (thorough 7) counting the stream and size choices; same oracle; non-trivial = execution with at least one deviation",
